@@ -9,7 +9,7 @@
    Type.IsValidJson / FilterJson / IsAssignableFrom.
 
    Types are MroSem types [b, a, m, ia]; values are MroSem tagged values. *)
-EXTENDS MroSem, Json
+EXTENDS MroSem, Json, IOUtils
 
 \* the struct table of the universe
 Structs == <<
@@ -26,6 +26,7 @@ StructNames == {Structs[i].name : i \in DOMAIN Structs}
 
 Arr(t, d) == [t EXCEPT !.a = d]
 TMap(t) == [b |-> t.b, a |-> 0, m |-> 1, ia |-> t.a]
+ThoroughTier == "VERIF_TIER" \in DOMAIN IOEnv /\ IOEnv.VERIF_TIER = "thorough"
 Bases == {TScalar(x) : x \in Builtins \cup UserTypes \cup StructNames}
 Types == Bases
          \cup {Arr(t, 1) : t \in Bases}
@@ -34,6 +35,13 @@ Types == Bases
          \cup {TMap(Arr(TScalar("int"), 1)), Arr(TMap(TScalar("int")), 1)}
          \* arrays of two dimensions whose elements are typed maps (of scalars, of arrays)
          \cup {Arr(TMap(TScalar("int")), 2), Arr(TMap(Arr(TScalar("int"), 1)), 2)}
+         \* thorough tier: two dimensions and typed maps for every base type, arrays of typed maps
+         \* of structs and of files, typed maps of arrays of one and two dimensions
+         \cup (IF ThoroughTier
+               THEN {Arr(t, 2) : t \in Bases} \cup {TMap(t) : t \in Bases \ {TScalar("map")}}
+                    \cup {Arr(TMap(TScalar(x)), d) : x \in {"S1", "txt", "float"}, d \in {1, 2}}
+                    \cup {TMap(Arr(TScalar(x), d)) : x \in {"int", "S1", "txt"}, d \in {1, 2}}
+               ELSE {})
 
 IsBuiltin(t, name) == t.a = 0 /\ t.m = 0 /\ t.b = name
 IsScalarT(t) == t.a = 0 /\ t.m = 0
@@ -197,7 +205,10 @@ Miss(v) ==
       [] v.k = "null" -> {}
       [] OTHER -> (Scalars \ {v, Null}) \cup {VArr(<<v>>)}
 
-Values(t) == Good(t, 2) \cup UNION {Miss(v) : v \in Good(t, 2)}
+(* nesting budget of the value universe: 2 in the quick tier, 3 in the thorough one
+   (the tier comes from the environment variable VERIF_TIER that bin/check sets) *)
+Depth == IF ThoroughTier THEN 4 ELSE 2
+Values(t) == Good(t, Depth) \cup UNION {Miss(v) : v \in Good(t, Depth)}
 
 ---------------------------------------------------------------------------
 (* The theorems of C17, checked on the model *)
@@ -211,7 +222,7 @@ T_MapCongruent == \A t \in Types, s \in Types :
         => (Assignable(TMap(t), TMap(s)) <=> Assignable(t, s))
 T_Idempotent == \A t \in Types : \A v \in Values(t) :
     LET f == Filter(t, v) IN ~f.fatal => Filter(t, f.v).v = f.v
-T_FilterOnlyDrops == \A t \in Types : \A v \in Good(t, 2) :
+T_FilterOnlyDrops == \A t \in Types : \A v \in Good(t, Depth) :
     \* on valid values filtering reports no error
     ~Filter(t, v).err
 (* filtering to a type t a value that is valid for an assignable type s gives a
